@@ -3,6 +3,7 @@
 
 #include <string.h>
 #include <cmath>
+#include <cstdio>
 
 namespace photospline{
 	
@@ -452,14 +453,15 @@ void splinetable<Alloc>::write_fits(const std::string& filePath) const{
 	if (error != 0)
 		throw std::runtime_error(("CFITSIO failed to open "+filePath+" for writing").c_str());
 	
-	//closes the file if writing is abandoned because of an error
+	//closes and removes the file if writing is abandoned because of an error,
+	//so that no incomplete file is left where a reader could pick it up
 	struct fits_cleanup{
 		fitsfile* fits;
 		fits_cleanup(fitsfile* f):fits(f){}
 		~fits_cleanup(){
 			if(fits){
 				int error=0;
-				fits_close_file(fits, &error);
+				fits_delete_file(fits, &error);
 				fits_report_error(stderr, error);
 			}
 		}
@@ -471,8 +473,12 @@ void splinetable<Alloc>::write_fits(const std::string& filePath) const{
 	//(e.g. because the disk is full) and that failure must be reported.
 	cleanup.fits=NULL;
 	fits_close_file(fits, &error);
-	if (error != 0)
-		throw std::runtime_error("CFITSIO failed to finish writing "+filePath+": Error "+std::to_string(error));
+	if (error != 0){
+		//the handle is gone, but what reached the disk is incomplete
+		bool removed=(std::remove(filePath.c_str())==0);
+		throw std::runtime_error("CFITSIO failed to finish writing "+filePath+": Error "+std::to_string(error)
+		                         +(removed?"":"; the incomplete file could not be removed"));
+	}
 }
 	
 template<typename Alloc>
